@@ -1,4 +1,40 @@
-// unit `qdldl_factor` : WORK IN PROGRESS
+// unit `qdldl_factor` : symbolic + numeric LDL' factorisation of the engine (C12) -- `_etree` (second, stronger contract than the one in
+// qdldl_kernels), `_factor_inner`, `QDLDLWorkspace::new`, `_factor`; all four extracted from src/qdldl/qdldl.rs, unbounded (Verus).
+//
+// PROVED
+//  _etree         memory safety + termination as before, and: parents are later columns (etree_wf); Lnz[c] is EXACTLY the number of rows j
+//                 whose elimination path (from an off-diagonal entry of column j of A, along the tree just computed, staying below j) passes
+//                 through c (lnz_exact / cnt) -- i.e. the column counts of L for the spec `in_v` below.
+//  _factor_inner  from  triu_o (= triu_wf, folded) + etree_wf + lnz_covers (Lnz >= cnt; what _etree establishes, with equality) + the array sizes of the
+//                 call sites (Lp n+1, Li/Lx >= sum Lnz, D/Dinv/bwork/fwork/Dsigns n, iwork 3n), and NO assumption on empty columns:
+//                 * memory safety of every access: all indexings, the slice ranges Lx[f..l] / Li[f..l] (rule zipidx keeps their bounds check as an
+//                   assert!), split_at_mut / copy_from_slice sizes, and the four `get_unchecked(_mut)` sites (rule R10: y_vals[Lij], Dinv[cidx],
+//                   Lx[tmp_idx], D[k]) -- in particular Lij < n because every slot Lp[c] .. next_colspace[c] holds a row r with c < r < k;
+//                 * no arithmetic overflow (cumsum of Lnz, counters, next_colspace[cidx] += 1, nnz_e / nnz_y);
+//                 * termination of the three while loops (the tree walk climbs: parents are later columns);
+//                 * y_idx / elim_buffer never overflow: the marked nodes are pairwise distinct nodes < k (pigeonhole, lemma_room);
+//                 * result: Ok(count <= n) or Err(ZeroPivot), the latter only for a numeric factorisation; regularize_count <= n;
+//                 * Lp = cumsum(Lnz) (lp_ok); every fill pointer stays inside its column (cols_ok); the filled part is strictly lower triangular
+//                   with rows < n (filled_ok); on Ok column c holds exactly cnt(c, n) entries (filled_cnt: marking is sound AND complete);
+//                   with the exact counts of _etree every column is then full and L satisfies l_wf and l_strict (l_complete) -- what the triangular
+//                   solves of unit qdldl_kernels require for their unchecked accesses, with no assumption on L's previous contents;
+//                 * frame: a row index of L is a fresh row < n or unchanged (so l_wf holds also after Err if it held before, l_wf_if_rows_ok);
+//                   a logical factorisation leaves Lx and Dinv alone; n == 0 changes nothing.
+//  QDLDLWorkspace::new   allocates iwork 3n / bwork n / fwork n, runs _etree on triuA's own pattern; the result satisfies ws_ok (never Err).
+//  _factor        hands triuA / Lnz / etree / the work arrays of the workspace unchanged to _factor_inner (its precondition is discharged from ws_ok);
+//                 keeps ws_ok and everything static in the workspace (fit for the next refactor); Ok only if _factor_inner returned Ok, then L is l_complete.
+// NOT PROVED here: anything numeric (L D L' = A, inertia = number of positive pivots, the regularisation rule): floats are uninterpreted symbols.
+//
+// ASSUMED (hand written, trusted):
+//  prelude/float_opaque.rs (F = the crate's T; every operation an uninterpreted symbol), prelude/std_assumed.rs (<[T]>::fill);
+//  F::from_i8 returns Some (num_traits FromPrimitive on a float never fails)                                  -- external_body, below;
+//  axiom_usize_add_assign_ref: `usize += &usize` is `usize += *rhs` with the overflow panic (core's forward_ref_op_assign!) -- external_body, below
+//    (Verus has no spec for AddAssign<&usize>; used for `acc += Lnz` in the cumsum loop, whose overflow check is thereby kept as an obligation).
+// Verifier settings that matter: `#[verifier::loop_isolation(false)]` on the column loop of _factor_inner ONLY (inserted by //@before_loop 2):
+//  the `return Err(..)` inside that loop has to know how y_markers / y_idx / elim_buffer / next_colspace / y_vals (a move and two split_at_mut made
+//  before the loop) make up the final bwork / iwork / fwork; an isolated loop body cannot express that (the parameter iwork is shadowed).
+//  All inner loops are isolated as usual.  triu_wf, l_wf/l_strict are used FOLDED (opaque triu_o, l_complete, l_wf_if_rows_ok: same definitions,
+//  revealed by the lemmas next to them) because their two-variable monotonicity clauses cost 10^5 instantiations inside the big loops.
 use vstd::prelude::*;
 use vstd::set_lib::*;
 verus! {
@@ -467,7 +503,7 @@ pub open spec fn filled_ok(n: int, lp: Seq<usize>, nc: Seq<usize>, li: Seq<usize
     requires
         // what _etree establishes for the pattern it was given (triu_o is triu_wf, folded: lemma_triu_hide)
         triu_o(n, Ap@, Ai@), etree_wf(n as int, etree@), lnz_covers(n as int, Ap@, Ai@, etree@, Lnz@, n as int),
-        Ax@.len() == Ai@.len(), !logical_factor && n > 0 ==> Ax@.len() > 0,
+        Ax@.len() == Ai@.len(),
         old(Lp)@.len() == n + 1, old(Li)@.len() == old(Lx)@.len(), psum(Lnz@, n as int) <= old(Li)@.len(),
         old(D)@.len() == n, old(Dinv)@.len() == n, old(bwork)@.len() == n, old(iwork)@.len() == 3 * n, old(fwork)@.len() == n, Dsigns@.len() == n,
     ensures
@@ -498,7 +534,7 @@ pub open spec fn filled_ok(n: int, lp: Seq<usize>, nc: Seq<usize>, li: Seq<usize
 //@pre
     let ghost lnz = Lnz@;
     let ghost gn = n as int;
-    proof { axiom_usize_add_assign_ref(); assert(Li@.len() == Li.len()); }
+    proof { axiom_usize_add_assign_ref(); assert(Li@.len() == Li.len()); if n > 0 { lemma_triu_col(n, Ap@, Ai@, 0); } }
 //@loop 1
         invariant
             Lp@.len() == n + 1, lnz == Lnz@, lnz.len() == n, r14_lo1_0 == 1, r14_n1 == n, psum(lnz, gn) <= usize::MAX, gn == n,
@@ -705,11 +741,10 @@ pub open spec fn ws_static_same(w0: QDLDLWorkspace<F>, w1: QDLDLWorkspace<F>) ->
 //@contract
     requires
         ws_ok(*old(workspace)),
-        // L as allocated by _qdldl_new: spalloc((n, n), sum(Lnz)); D, Dinv of length n; every column of triuA nonempty (check_structure)
+        // L as allocated by _qdldl_new: spalloc((n, n), sum(Lnz)); D, Dinv of length n
         old(L).colptr@.len() == old(workspace).triuA.n + 1, old(L).rowval@.len() == old(L).nzval@.len(),
         psum(old(workspace).Lnz@, old(workspace).triuA.n as int) <= old(L).rowval@.len(),
         old(D)@.len() == old(workspace).triuA.n, old(Dinv)@.len() == old(workspace).triuA.n,
-        !logical && old(workspace).triuA.n > 0 ==> old(workspace).triuA.nzval@.len() > 0,
     ensures
         // the workspace stays fit for the next refactorisation, its matrix / tree / counts / settings are untouched
         ws_ok(*final(workspace)), ws_static_same(*old(workspace), *final(workspace)),
